@@ -59,6 +59,15 @@ int main(int argc, char **argv)
 	if (argc < 4) return 2;
 	if (!strcmp(argv[1], "pairs")) {
 		unsigned lo = atoi(argv[2]), hi = atoi(argv[3]), c, b;
+		/* an empty piece - given as (NULL, 0), as the repository's own unit test does, or as (pointer, 0) - leaves every state as it is */
+		for (c = lo; c < hi; ++c) {
+			uint16_t v = (uint16_t) c; uint8_t dummy = 0x5a;
+			lha_crc16_buf(&v, NULL, 0);
+			if (v != c) report("empty-piece-null", c, &dummy, 0, 0, v, c);
+			v = (uint16_t) c; lha_crc16_buf(&v, &dummy, 0);
+			if (v != c) report("empty-piece-pointer", c, &dummy, 0, 0, v, c);
+			++splits;
+		}
 		for (c = lo; c < hi; ++c) for (b = 0; b < 256; ++b) {
 			uint16_t v = (uint16_t) c; uint8_t by = (uint8_t) b;
 			lha_crc16_buf(&v, &by, 1);
@@ -107,7 +116,7 @@ int main(int argc, char **argv)
 				while (pos < len) {
 					size_t piece = sm() % 5 == 0 ? 0 : 1 + sm() % (len - pos);
 					if (sm() % 3 == 0 && piece > 9) piece = 1 + piece % 9;
-					lha_crc16_buf(&s, p + pos, piece); pos += piece;
+					lha_crc16_buf(&s, (piece == 0 && sm() % 2) ? NULL : p + pos, piece); pos += piece;
 				}
 				lha_crc16_buf(&s, p + pos, 0);
 				if (s != want) report("random-ksplit", c0, p, len, 0, s, want);
